@@ -95,7 +95,9 @@ def random_pipeline(rng, n_pumps=None, slurry=None, entrance_zero=None, dia_choi
             continue
         r = rng.random()
         L = 0.0 if (r < 0.12 and 0 < i < n_pipes - 1) else (rng.uniform(1.0, 50.0) if r < 0.5 else rng.uniform(50.0, 3000.0))
-        secs.append(Pipe(f'pipe {i}', d, L, rng.choice([0.0, 0.1, 0.5, 1.0, 2.0]), rng.uniform(-15.0, 10.0) if L > 0 or rng.random() < 0.5 else 0.0))
+        # section names are labels: several lengths of 'Pontoon pipe', or sections left on the class default name, are ordinary
+        nm = f'pipe {i}' if rng.random() < 0.65 else rng.choice(['Pontoon pipe', 'Pipe Section', 'pipe 1'])
+        secs.append(Pipe(nm, d, L, rng.choice([0.0, 0.1, 0.5, 1.0, 2.0]), rng.uniform(-15.0, 10.0) if L > 0 or rng.random() < 0.5 else 0.0))
     # pumps anywhere strictly between the first and the last pipe
     placed = []
     for _ in range(n_pumps):
